@@ -615,34 +615,6 @@ example :
       (s.node i).fetcher.tbf = []) ∧ s.wire = [] := by
   set_option maxRecDepth 100000 in decide
 
-/-- non-vacuity of `mutable_converge_reg`: a concrete two-exchange schedule satisfies every FairRound hypothesis -/
-def exNodes : Nat → NodeSt := fun i => if i = 0 then naEx else nbEx
-def exSched : List Xch :=
-  [⟨0, 1, [⟨2, tyOf (.reg false [0, 1]), 0, 0⟩], [], 20⟩,
-   ⟨1, 0, [⟨2, tyOf (.reg false [0, 1, 2]), 1, 0⟩], [], 20⟩]
-
-theorem exValid : Valid padWorld exNodes exSched := by
-  refine ⟨⟨by decide, by decide, by decide, by decide, by decide, ?_, by decide⟩, by decide,
-          ⟨by decide, by decide, by decide, by decide, by decide, ?_, by decide⟩, by decide, trivial⟩
-  · intro r hr
-    have : (exNodes 1).fetcher.range = none := by decide
-    rw [this] at hr; cases hr
-  · intro r hr
-    have : (stepX padWorld exNodes ⟨0, 1, [⟨2, tyOf (.reg false [0, 1]), 0, 0⟩], [], 20⟩ 0).fetcher.range = none := by decide
-    rw [this] at hr; cases hr
-
-example : (∀ i, StaleQuiet (exNodes i).fetcher) ∧ (∀ i, RegKey false 2 (exNodes i)) ∧
-    Covers 2 (exSched.map (fun x => (x.src, x.dst))) ∧
-    (runXs padWorld exNodes exSched 0).store.get 2 = some (.reg false [0, 1, 2]) := by
-  refine ⟨?_, ?_, ?_, by decide⟩
-  · intro i; unfold exNodes; split <;> exact ⟨rfl, rfl, fun e he => by cases he⟩
-  · intro i; unfold exNodes; split
-    · exact Or.inr ⟨[0, 1], rfl, by simp [Canon]⟩
-    · exact Or.inr ⟨[1, 2], rfl, by simp [Canon]⟩
-  · intro y x hy hx hne
-    have : (y = 0 ∧ x = 1) ∨ (y = 1 ∧ x = 0) := by omega
-    rcases this with ⟨rfl, rfl⟩ | ⟨rfl, rfl⟩ <;> decide
-
 /-! ## (3) as an invariant of every run: whatever the delivery order, duplication and loss -/
 
 /-- every queued or in-flight entry of a fetcher names a holder satisfying `P` -/
@@ -953,6 +925,34 @@ example :
                        pdist := fun _ _ => 0, kdist := fun _ _ => 0 }
     heard w 1 0 = false ∧ heard w 0 1 = true ∧ heard w 1 28 = true ∧ heard w 1 1 = false := by
   decide
+
+/-- non-vacuity of `mutable_converge_reg`: a concrete two-exchange schedule satisfies every FairRound hypothesis -/
+def exNodes : Nat → NodeSt := fun i => if i = 0 then naEx else nbEx
+def exSched : List Xch :=
+  [⟨0, 1, [⟨2, tyOf (.reg false [0, 1]), 0, 0⟩], [], 20⟩,
+   ⟨1, 0, [⟨2, tyOf (.reg false [0, 1, 2]), 1, 0⟩], [], 20⟩]
+
+theorem exValid : Valid padWorld exNodes exSched := by
+  refine ⟨⟨by decide, by decide, by decide, by decide, by decide, ?_, by decide⟩, by decide,
+          ⟨by decide, by decide, by decide, by decide, by decide, ?_, by decide⟩, by decide, trivial⟩
+  · intro r hr
+    have : (exNodes 1).fetcher.range = none := by decide
+    rw [this] at hr; cases hr
+  · intro r hr
+    have : (stepX padWorld exNodes ⟨0, 1, [⟨2, tyOf (.reg false [0, 1]), 0, 0⟩], [], 20⟩ 0).fetcher.range = none := by decide
+    rw [this] at hr; cases hr
+
+example : (∀ i, StaleQuiet (exNodes i).fetcher) ∧ (∀ i, RegKey false 2 (exNodes i)) ∧
+    SafeNet.Replication.Abs.Covers 2 (exSched.map (fun x => (x.src, x.dst))) ∧
+    (runXs padWorld exNodes exSched 0).store.get 2 = some (.reg false [0, 1, 2]) := by
+  refine ⟨?_, ?_, ?_, by decide⟩
+  · intro i; unfold exNodes; split <;> exact ⟨rfl, rfl, fun e he => by cases he⟩
+  · intro i; unfold exNodes; split
+    · exact Or.inr ⟨[0, 1], rfl, by simp [Canon]⟩
+    · exact Or.inr ⟨[1, 2], rfl, by simp [Canon]⟩
+  · intro y x hy hx hne
+    have : (y = 0 ∧ x = 1) ∨ (y = 1 ∧ x = 0) := by omega
+    rcases this with ⟨rfl, rfl⟩ | ⟨rfl, rfl⟩ <;> decide
 
 #print axioms SafeNet.Props.C09.only_close_holders_heard
 #print axioms SafeNet.Props.C09.only_close_holders_heard_sys
